@@ -78,14 +78,14 @@ theorem eq_of_hidOf_le {l x : List α} {n : Nat} (h : hidOf l n = x) (hx : x.len
     (`#)`) — if it succeeds — gives back the session of the `#(`: same context, same nesting, same pending flows,
     same data stack, every variable with its value, the return/loop/builder stacks that were there; the code is
     the code at the `#(` followed by one literal per result (the block's own code is gone), and nothing else. -/
-theorem block_close {s0 s t : Sess} (fuel : Nat) (h0 : s0.m.ctx.mode ≠ .metaEval)
+theorem block_close_full {s0 s t : Sess} (fuel : Nat) (h0 : s0.m.ctx.mode ≠ .metaEval)
     (h : Ext .metaEval s0 s) (hbase : s.nested.length = s0.nested.length + 1) (hnp : s.hasPendingFlow = false)
     (hc : s.contextClose fuel = .ok t) :
-    t.m.ctx = s0.m.ctx ∧ t.nested = s0.nested ∧ t.flows = s0.flows ∧ t.m.ds = s0.m.ds ∧
+    (t.m.ctx = s0.m.ctx ∧ t.nested = s0.nested ∧ t.flows = s0.flows ∧ t.m.ds = s0.m.ds ∧
     t.m.heap.take s0.m.heap.length = s0.m.heap ∧ hidOf t.m.rs s0.m.rs.length = s0.m.rs ∧
     hidOf t.m.loops s0.m.loops.length = s0.m.loops ∧ hidOf t.m.special s0.m.special.length = s0.m.special ∧
     (∃ vs : List Cell, t.m.code = s0.m.code ++ vs.map Mach.loadValueOp) ∧
-    hidOf t.m.dict s0.m.dict.length = hidOf s.m.dict s0.m.dict.length := by
+    hidOf t.m.dict s0.m.dict.length = hidOf s.m.dict s0.m.dict.length) ∧ Ext0 s0 t := by
   obtain ⟨hm, hnest⟩ := h.chain.base_of_len hbase
   have hch := h.chain
   rw [hnest] at hch
@@ -141,7 +141,9 @@ theorem block_close {s0 s t : Sess} (fuel : Nat) (h0 : s0.m.ctx.mode ≠ .metaEv
         have hdsL : m'.ctx.dsLen = s0.m.ds.length := by
           rw [hf Ctx.dsLen (fun _ => rfl)]; exact bmk.ds (by rw [hm]; exact fun e => h0 e.symm)
         have hcs : m'.ctx.csLen = s0.m.code.length := by rw [hf Ctx.csLen (fun _ => rfl)]; exact bmk.cs
-        refine ⟨rfl, hnest4, by rw [hfl4]; exact hflows, ?_, e4.ext0.heap, e4.ext0.rs, e4.ext0.loops, e4.ext0.special, ⟨vs, ?_⟩, ?_⟩
+        refine ⟨⟨rfl, hnest4, by rw [hfl4]; exact hflows, ?_, e4.ext0.heap, e4.ext0.rs, e4.ext0.loops, e4.ext0.special, ⟨vs, ?_⟩, ?_⟩,
+          ⟨e4.ext0.code, e4.ext0.dmap, e4.ext0.dictLen, e4.ext0.undo, e4.ext0.heap, e4.ext0.ds, e4.ext0.rs, e4.ext0.loops,
+            e4.ext0.special, e4.ext0.flows, e4.ext0.nested, e4.ext0.nolog, e4.ext0.log, e4.ext0.limits⟩⟩
         · exact eq_of_hidOf_le e4.ext0.ds rfl (by rw [hdsO, hdsL] at hlen; simpa using hlen)
         · show s4.m.code = _
           rw [hcode4, hcs, sl.codeMeta hm]
@@ -157,5 +159,15 @@ theorem block_close {s0 s t : Sess} (fuel : Nat) (h0 : s0.m.ctx.mode ≠ .metaEv
       | timeout => simp only at hc; cases hc
     · rw [e] at hc; cases hc
     · rw [e] at hc; cases hc
+
+theorem block_close {s0 s t : Sess} (fuel : Nat) (h0 : s0.m.ctx.mode ≠ .metaEval)
+    (h : Ext .metaEval s0 s) (hbase : s.nested.length = s0.nested.length + 1) (hnp : s.hasPendingFlow = false)
+    (hc : s.contextClose fuel = .ok t) :
+    t.m.ctx = s0.m.ctx ∧ t.nested = s0.nested ∧ t.flows = s0.flows ∧ t.m.ds = s0.m.ds ∧
+    t.m.heap.take s0.m.heap.length = s0.m.heap ∧ hidOf t.m.rs s0.m.rs.length = s0.m.rs ∧
+    hidOf t.m.loops s0.m.loops.length = s0.m.loops ∧ hidOf t.m.special s0.m.special.length = s0.m.special ∧
+    (∃ vs : List Cell, t.m.code = s0.m.code ++ vs.map Mach.loadValueOp) ∧
+    hidOf t.m.dict s0.m.dict.length = hidOf s.m.dict s0.m.dict.length :=
+  (block_close_full fuel h0 h hbase hnp hc).1
 
 end Xeh.Session
